@@ -26,7 +26,9 @@ def run(ctx):
                     max_loops=3 if ctx.quick else 4, routings_per_graph=1, kinds=("uniform", "uniform", "corner"), scales=(1, 1, 1, Fraction(1, 2 ** 33), 2 ** 30))
     # exact integer degrees of divergence and even dimensions (integral exponents of powf), >= 4 loops with shifts on several loops
     ss += S.generate(ctx, 0, 3 if ctx.quick else 6, routings_per_graph=1, kinds=("uniform",),
-                     special=("integer_dod:4", "integer_dod:2", "integer_dod:3", "integer_dod:5", "integer_dod:6", "integer_dod:1") * (1 if ctx.quick else 4))
+                     special=("integer_dod:4", "integer_dod:2", "integer_dod:3", "integer_dod:5", "integer_dod:6", "integer_dod:1", "vacuum_massless", "vacuum_massless", "vacuum") * (1 if ctx.quick else 4))
+    # a vertex with two external legs is listed twice in `externals`
+    ss += S.generate(ctx, 5 if ctx.quick else 25, 3, max_e=5, max_loops=3, routings_per_graph=1, kinds=("uniform",), ext_modes=["dup"])
     ss += S.generate(ctx, 3 if ctx.quick else 12, 3, max_e=6, max_loops=5, routings_per_graph=1, kinds=("uniform",), names=["banana5", "banana6"])
     S.run(ss)
     SC.generic_scalar_guard(ctx, ss[:: 5], k=6)
